@@ -29,6 +29,9 @@ pub struct GitScenario {
     pub ops: Vec<GitOp>,
     pub rand_seed: u64,
     pub with_commands: bool,
+    /// RLIMIT_NOFILE of every monorail invocation (None = inherited)
+    #[serde(default)]
+    pub nofile: Option<u64>,
 }
 
 impl GitScenario {
@@ -98,7 +101,16 @@ fn gen_base(rng: &mut Rng, with_commands: bool, shared: bool) -> GitScenario {
             initial.push((format!("{}/i{}{}", sub, k, file), format!("initial {} {}\n", d, k)));
         }
     }
-    GitScenario { dirs, shared, initial, ignore_log: rng.chance(1, 2), ignore_build: rng.chance(1, 2), ops: vec![], rand_seed: rng.next_u64() % 1_000_000, with_commands }
+    let (ignore_log, ignore_build) = (rng.chance(1, 2), rng.chance(1, 2));
+    let rand_seed = rng.next_u64() % 1_000_000;
+    // one world in four runs monorail under a low descriptor limit (derived from the draw above so that the
+    // operation lists of existing seeds stay what they were)
+    let nofile = match rand_seed % 8 {
+        0 => Some(64),
+        1 => Some(128),
+        _ => None,
+    };
+    GitScenario { dirs, shared, initial, ignore_log, ignore_build, ops: vec![], rand_seed, with_commands, nofile }
 }
 
 struct Exec {
@@ -114,6 +126,7 @@ struct Exec {
 fn start(sc: &GitScenario, with_ctl: bool) -> Result<Exec, String> {
     let mut w = World::create(&sc.spec(), with_ctl)?;
     w.set_rand_seed(sc.rand_seed);
+    w.nofile = sc.nofile;
     let head = w.git(&["rev-parse", "HEAD"])?.trim().to_string();
     let model = RGit::new(&sc.initial_tree(), sc.ignore_log, sc.ignore_build);
     Ok(Exec { w, model, shas: vec![head], cp: None, cp_doc: None, moved_from: BTreeSet::new() })
@@ -289,6 +302,9 @@ fn exec_c02(sc: &GitScenario) -> Outcome {
         Err(x) => return Outcome::skip(&format!("world: {}", x)),
     };
     let mut out = Outcome::default();
+    if sc.nofile.is_some() {
+        out.fault("descriptor_limit_lowered_to_64_or_128", 1);
+    }
     let mut expected_sets: BTreeSet<Vec<String>> = BTreeSet::new();
     let mut interesting = false;
     for (i, op) in sc.ops.iter().enumerate() {
@@ -529,6 +545,9 @@ fn exec_c07(sc: &C07Scenario) -> Outcome {
         Err(x) => return Outcome::skip(&format!("world: {}", x)),
     };
     let mut out = Outcome::default();
+    if sc.base.nofile.is_some() {
+        out.fault("descriptor_limit_lowered_to_64_or_128", 1);
+    }
     let hang = Duration::from_millis(default_hang_ms());
     let mut kinds_max = 0;
     let mut reflagged = false;
@@ -783,6 +802,9 @@ fn exec_c19(sc: &GitScenario) -> Outcome {
         Err(x) => return Outcome::skip(&format!("world: {}", x)),
     };
     let mut out = Outcome::default();
+    if sc.nofile.is_some() {
+        out.fault("descriptor_limit_lowered_to_64_or_128", 1);
+    }
     let hang = Duration::from_millis(default_hang_ms());
     let all: BTreeSet<String> = sc.dirs.iter().cloned().collect();
     let mut ids: BTreeSet<String> = BTreeSet::new();
